@@ -23,7 +23,7 @@ from vk.specs import chain as S
 from vk.specs import universe as U
 from vk.specs import dyn as Dn
 from vk.symx import shims as SH
-from vk.symx.harness import decide, decide_true
+from vk.symx.harness import decide, decide_true, native_pass
 from vk.symx.poly import Poly, VarFactory
 
 
@@ -242,6 +242,8 @@ def clauses(rec, sched, template, Hd, va, result, dt, two_site, sym):
             complete = False
             break
         ref = cj(J).T.dot(Hd.dot(J))
+        if not sym:
+            yield ("frames_are_orthonormal", ctag, cj(J).T.dot(J), np.eye(J.shape[1]) * abs(c["snap"]["coeff"]) ** 2, None)
         want_t = complex(0, -1) * dt / 2 if kind == "F" else complex(0, 1) * dt / 2      # dt = -i tau in imaginary time
         yield ("generator_times_time_is_the_projected_hamiltonian_step", ctag, mul(c["A"], c["t"]), mul(ref, want_t), None)
         yield ("posed_in_the_state_the_previous_problem_produced", ctag, J.dot(c["v"]), prev_after, None)
@@ -256,6 +258,7 @@ def native_replay(t0, H, dt, method, solver, two_site, rng_seed):
         import renormalizer.mps.mps as mps_mod
         rng = np.random.default_rng(rng_seed)
         atc = S.complexify(t0, rng)
+        atc.canonicalise().canonicalise()       # the schemes expect a canonical state with the centre at the start of the sweep (two sweeps: same direction again)
         Hn, va = S.dense(H), S.dense(atc)
         rec = Recorder(None, real_kernels=(mps_mod.expm_krylov, mps_mod.solve_ivp))
         x = atc.copy()
@@ -332,6 +335,7 @@ def prove(run, key="C09", dts=(0.25, complex(0, -0.25))):
                             decide(run, f"frame:{fn}:input[{tag}]", fn, S.dense(a), va, case)
                             bad = S.qnv_violations(r)
                             decide_true(run, f"post:{fn}:qn_valid[{tag}]", fn, not bad, f"labels of the result invalid: {bad[:2]}", case)
+                        native_pass(run, f"rtc:{fn}:local_problems_with_the_real_kernels_incl_orthonormal_frames", fn, replay, (tag,), case)
     run.extra.setdefault("symx", {})[key + "_tdvp"] = {"scheme_cases": ncase, "local_problems": ncalls, "kernel_stubs": SH.KERNEL_STUBS, "shims": SH.SHIMS,
                                                       "local_propagator_stub": "expm_krylov / solve_ivp inside renormalizer.mps.mps return fresh indeterminates on the structural "
                                                                                "support of span{v, Av, A^2 v, A^3 v} and record (A as a matrix, time, v, tensors of the working state)"}
